@@ -66,9 +66,26 @@ func vReaderKind(kind int, data []byte) io.Reader {
 			panic("vReaderKind")
 		}
 		return r
+	case 4:
+		// not seekable, but an io.ByteReader (like bufio.Reader or bytes.Buffer)
+		return &vByteStream{vStream{data: data}}
 	default:
 		return io.NewSectionReader(&vReaderAt{data: data}, 0, int64(len(data)))
 	}
+}
+
+type vByteStream struct{ vStream }
+
+func (s *vByteStream) ReadByte() (byte, error) {
+	if s.pos >= len(s.data) {
+		return 0, io.EOF
+	}
+	b := s.data[s.pos]
+	s.pos++
+	if s.pos > s.maxPos {
+		s.maxPos = s.pos
+	}
+	return b, nil
 }
 
 // VerifH_C03_LoadIndexScan: LoadIndex over a payload of two sections (collision alphabet, data
@@ -84,7 +101,7 @@ func VerifH_C03_LoadIndexScan() {
 	}
 	payload := vPayload(hdr, secs)
 	storeID := vBool("storeIdentity")
-	kind := vChoose("readerKind", 4)
+	kind := vChoose("readerKind", 5)
 	var file []byte
 	isV2 := vChoose("v2", 2) == 1
 	if isV2 {
